@@ -23,6 +23,7 @@ type c08Msg struct {
 	Size       int   `json:"size"`
 	Compressed bool  `json:"compressed"`
 	Frags      int   `json:"fragments"`
+	BFinal     bool  `json:"bfinal,omitempty"` // compressed stream ends with a BFINAL=1 block (RFC 7692 7.2.3.4)
 }
 
 type c08Desc struct {
@@ -119,7 +120,9 @@ func c08Gen(tier string, seed int64) []fw.Case {
 						if lim == -2 && !first {
 							ml = 32768
 						}
-						d.Msgs = append(d.Msgs, c08Msg{Limit: ml, Size: over, Compressed: p.Deflate && rng.Bool(), Frags: 1 + rng.Intn(4)})
+						last := c08Msg{Limit: ml, Size: over, Compressed: p.Deflate && rng.Bool(), Frags: 1 + rng.Intn(4)}
+						last.BFinal = last.Compressed && rng.Intn(3) == 0
+						d.Msgs = append(d.Msgs, last)
 						add(d, fmt.Sprintf("limit/%s/%s/L=%d/size=%d/%s", role, paramsKey(p), lim, over, d.Reader))
 					}
 				}
@@ -245,7 +248,11 @@ func c08Limit(r *fw.R, d c08Desc) {
 		payload := genPayload(rng, m.Size, 2+rng.Intn(3), nil)
 		wp := payload
 		if m.Compressed {
-			wp = def.Message(payload, 6, wire.EndSync)
+			end := wire.EndSync
+			if m.BFinal {
+				end = wire.EndBFinal
+			}
+			wp = def.Message(payload, 6, end)
 		}
 		frs := fragments(rng, wire.OpBinary, m.Compressed, wp, m.Frags)
 		go func() {
@@ -266,7 +273,7 @@ func c08Limit(r *fw.R, d c08Desc) {
 		} else if int64(m.Size) == effLimit {
 			rel = "at-limit"
 		}
-		r.Key("limit/%s/%s/L=%s/%s/compressed=%v/frag=%v/%s", d.Role, paramsKey(d.Params), limClass(m.Limit), rel, m.Compressed, m.Frags > 1, d.Reader.Kind)
+		r.Key("limit/%s/%s/L=%s/%s/compressed=%v/bfinal=%v/frag=%v/%s", d.Role, paramsKey(d.Params), limClass(m.Limit), rel, m.Compressed, m.BFinal, m.Frags > 1, d.Reader.Kind)
 		// read it
 		var got []byte
 		var rerr error
@@ -304,7 +311,7 @@ func c08Limit(r *fw.R, d c08Desc) {
 		}
 		// over the limit
 		if rerr == nil {
-			r.Violate("C08/message-over-limit-delivered/"+rel, fmt.Sprintf("%s: the message was reported complete with %d bytes", what, len(got)), "")
+			r.Violate("C08/message-over-limit-delivered/"+rel+bfKey(m.BFinal), fmt.Sprintf("%s bfinal=%v: the message was reported complete with %d bytes", what, m.BFinal, len(got)), "")
 			return
 		}
 		if int64(len(got)) > effLimit+1 {
@@ -505,3 +512,10 @@ func c08Declared(r *fw.R, d c08Desc) {
 }
 
 var _ = websocket.MessageText
+
+func bfKey(b bool) string {
+	if b {
+		return "/bfinal"
+	}
+	return ""
+}
